@@ -3,7 +3,9 @@
 //!   `run(ops) -> Vec<String>`                      (impl trace; one line per op line)
 use crate::util::{Rng, Stats};
 
+pub mod chan;
 pub mod param;
+pub mod storage;
 pub mod units;
 
 pub fn suite_salt(name: &str) -> u64 {
@@ -15,6 +17,8 @@ pub fn gen(suite: &str, rng: &mut Rng, n: usize, thorough: bool, stats: &mut Sta
 	match suite {
 		"units" => units::gen(rng, n, thorough, stats),
 		"param" => param::gen(rng, n, thorough, stats),
+		"chan" => chan::gen(rng, n, thorough, stats),
+		"storage" => storage::gen(rng, n, thorough, stats),
 		_ => panic!("unknown suite {}", suite),
 	}
 }
@@ -23,6 +27,8 @@ pub fn run(suite: &str, ops: &[String]) -> Vec<String> {
 	match suite {
 		"units" => units::run(ops),
 		"param" => param::run(ops),
+		"chan" => chan::run(ops),
+		"storage" => storage::run(ops),
 		_ => panic!("unknown suite {}", suite),
 	}
 }
